@@ -86,6 +86,8 @@ impl vstd::std_specs::convert::FromSpecImpl<Vec<u8>> for ByteSeq {
 }
 
 impl ByteSeq {
+    pub open spec fn spec_len(&self) -> usize { self@.len() as usize }
+
     // ---- construction -------------------------------------------------------------------------------------------
     #[verifier::external_body]
     pub fn new() -> (r: ByteSeq)
@@ -110,7 +112,9 @@ impl ByteSeq {
     { unimplemented!() }
 
     // a live allocation never exceeds isize::MAX bytes
+    // (`when_used_as_spec`: `b.len()` inside a lifted closure body (R8) reads as the length of the view)
     #[verifier::external_body]
+    #[verifier::when_used_as_spec(spec_len)]
     pub fn len(&self) -> (r: usize)
         ensures r == self@.len(), r <= isize::MAX,
     { unimplemented!() }
@@ -310,6 +314,61 @@ pub fn u128_from_le_bytes(a: [u8; 16]) -> (r: u128)
     ensures r == un_le128(a@),
 { unimplemented!() }
 
+// fixed-size record buffers: `buf[A..B].copy_from_slice(&X.to_le_bytes())` on a `[u8; N]` array. R4 instances map the two call
+// targets and keep receiver, indices and argument verbatim:
+//   `X.to_le_bytes()`                     -> `X.to_le_seq()`                          little-endian bytes of X (u16/u32/u64/u128)
+//   `BUF[A..B].copy_from_slice(SRC)`      -> `arr_copy_from_slice(&mut BUF, A, B, SRC)` panics unless A <= B <= N and |SRC| == B - A
+pub trait LeBytes {
+    spec fn le_spec(&self) -> Seq<u8>;
+    fn to_le_seq(&self) -> (r: Vec<u8>)
+        ensures r@ == self.le_spec();
+}
+impl LeBytes for u16 {
+    open spec fn le_spec(&self) -> Seq<u8> { le16(*self) }
+    #[verifier::external_body]
+    fn to_le_seq(&self) -> (r: Vec<u8>) { unimplemented!() }
+}
+impl LeBytes for u32 {
+    open spec fn le_spec(&self) -> Seq<u8> { le32(*self) }
+    #[verifier::external_body]
+    fn to_le_seq(&self) -> (r: Vec<u8>) { unimplemented!() }
+}
+impl LeBytes for u64 {
+    open spec fn le_spec(&self) -> Seq<u8> { le64(*self) }
+    #[verifier::external_body]
+    fn to_le_seq(&self) -> (r: Vec<u8>) { unimplemented!() }
+}
+impl LeBytes for u128 {
+    open spec fn le_spec(&self) -> Seq<u8> { le128(*self) }
+    #[verifier::external_body]
+    fn to_le_seq(&self) -> (r: Vec<u8>) { unimplemented!() }
+}
+#[verifier::external_body]
+pub fn arr_copy_from_slice<const N: usize>(a: &mut [u8; N], lo: usize, hi: usize, src: &Vec<u8>)
+    requires
+        lo <= hi <= N,
+        src@.len() == hi - lo,
+    ensures
+        final(a)@ == old(a)@.subrange(0, lo as int) + src@ + old(a)@.subrange(hi as int, N as int),
+{ unimplemented!() }
+
+// a live allocation never exceeds isize::MAX bytes (the same fact `len()` states), usable where the code indexes without len()
+#[verifier::external_body]
+pub proof fn axiom_byteseq_len(b: &ByteSeq)
+    ensures b@.len() <= isize::MAX,
+{}
+
+// R8 schema for `OPT.as_ref().map(|h| BODY)` with a pure integer BODY over a buffer (Option::map, std semantics): the closure
+// body is lifted verbatim as the ghost function `f`; its machine-arithmetic obligation (no overflow) is the precondition.
+#[verifier::external_body]
+pub fn opt_ref_map_usize(o: &Option<ByteSeq>, Ghost(f): Ghost<spec_fn(ByteSeq) -> int>) -> (r: Option<usize>)
+    requires
+        o matches Some(h) ==> 0 <= f(*h) <= usize::MAX,
+    ensures
+        o matches Some(h) ==> r == Some(f(*h) as usize),
+        o is None ==> r is None,
+{ unimplemented!() }
+
 // `x.to_le_bytes().to_vec()` (R4 instance `uN_le_vec(x)`): the little-endian bytes as a Vec
 #[verifier::external_body]
 pub fn u32_le_vec(x: u32) -> (r: Vec<u8>)
@@ -326,11 +385,19 @@ pub proof fn lemma_le128_at(x: u128)
 {
     vstd::bytes::lemma_auto_spec_u128_to_from_le_bytes();
 }
+pub proof fn lemma_un_le128_at(s: Seq<u8>)
+    requires s.len() == 16,
+    ensures le128(un_le128(s)) == s,
+{
+    vstd::bytes::lemma_auto_spec_u128_to_from_le_bytes();
+}
 pub proof fn lemma_le128_facts()
     ensures
         forall|x: u128| #![trigger le128(x)] le128(x).len() == 16 && un_le128(le128(x)) == x,
+        forall|s: Seq<u8>| #![trigger un_le128(s)] s.len() == 16 ==> le128(un_le128(s)) == s,
 {
     assert forall|x: u128| #![trigger le128(x)] le128(x).len() == 16 && un_le128(le128(x)) == x by { lemma_le128_at(x); }
+    assert forall|s: Seq<u8>| #![trigger un_le128(s)] s.len() == 16 implies le128(un_le128(s)) == s by { lemma_un_le128_at(s); }
 }
 
 // sequence algebra used by every codec proof: splitting a concatenation
